@@ -2305,6 +2305,13 @@ class BaseInterpreter(Generic[TContext, TEvent]):
                     data=self._resolve_output(final_state),
                     src=ancestor.id,
                 )
+                # 🔁 A done event is raised by the machine itself while it is
+                #    processing, so it is a link of the self-raised chain the
+                #    run loop bounds (an `onDone` that re-enters and
+                #    re-completes its own state fed itself forever, without
+                #    ever yielding to the event loop).
+                if getattr(self, "_processing", False):
+                    self._raise_depth = getattr(self, "_raise_depth", 0) + 1
                 await self.send(done_event)
                 # Per SCXML, only fire for the first completed ancestor.
                 return
